@@ -537,6 +537,45 @@ def LowObj.step (o : LowObj α) : Op α → LowObj α × Ans α
   | .d2 var =>
     if var != o.d2Var then ({ o with d2Var := var }, .exc) else (o, .val (-zero))
 
+/-! ## AutoCorrelationTransitionMatrix (AutoCorrelationTransitionMatrix.cpp), as repaired
+(the equilibrium vector is the stationary distribution, proportional to 1/(1-λ_i)) -/
+
+/-- `Pij(i, j)` (AutoCorrelationTransitionMatrix.h) and the entries written by `getPij()`, from
+`li = vAutocorrel_[i]` -/
+def autoEntry (n : Nat) (li : α) (i j : Nat) : α :=
+  if i == j then li else (one - li) / ofInt ((n : Int) - 1)
+
+/-- the loop of `fireParameterChanged`: `eqFreq_[i] = 1/(1-λ_i); sum += eqFreq_[i]`, then `eqFreq_[i] /= sum` -/
+def autoEq (lam : List α) : List α :=
+  let w := lam.map (fun l => one / (one - l))
+  let s := sumL w
+  w.map (fun x => x / s)
+
+structure AutoTM (α : Type) where
+  n : Nat
+  lam : List α                 -- vAutocorrel_
+  eq : List α                  -- eqFreq_
+  pij : List (List α)          -- pij_ (cached)
+  upToDate : Bool
+
+def autoMatrix (n : Nat) (lam : List α) : List (List α) :=
+  lam.mapIdx (fun i li => (List.range n).map (fun j => autoEntry n li i j))
+
+/-- the constructor: all λ = 0.95, uniform equilibrium frequencies, matrix not computed -/
+def AutoTM.build (n : Nat) : AutoTM α :=
+  { n := n, lam := List.replicate n (ofRat 95 100), eq := List.replicate n (one / ofInt n),
+    pij := [], upToDate := false }
+
+/-- `setParameterValue("lambda<k+1>", v)` once the constraint ]0,1[ has accepted `v`, then `fireParameterChanged` -/
+def AutoTM.setLambda (m : AutoTM α) (k : Nat) (v : α) : AutoTM α :=
+  let lam := m.lam.set k v
+  { m with lam := lam, eq := autoEq lam, upToDate := false }
+
+/-- `getPij()`: lazily recomputed -/
+def AutoTM.getPij (m : AutoTM α) : AutoTM α × List (List α) :=
+  if m.upToDate then (m, m.pij)
+  else let p := autoMatrix m.n m.lam; ({ m with pij := p, upToDate := true }, p)
+
 /-! ## Specification: sum over all hidden paths -/
 
 /-- all sequences of `T` hidden states -/
